@@ -323,7 +323,7 @@ def validity_problems(model):
         out.append("checker: " + str(e).strip().split("\n")[0][:600])
     try:
         for p in wf.check_model(model):
-            if "defined more than once" in p or "redefines an outer name" in p:
+            if "defined more than once" in p or "redefines an outer name" in p or "redefines an existing name" in p:
                 continue  # re-done below with ONNX scoping (sibling subgraphs are separate scopes)
             out.append("wf: " + p[:300])
     except Exception as e:  # noqa: BLE001
@@ -608,9 +608,18 @@ def attribute(model, api, opts, entry, still_bad):
             return m2, bool(still_bad(m2))
         except Exception:  # noqa: BLE001
             return m2, False
-    base = model
     if api.startswith("rule:"):
         return api, diff_sig(model, call_api(model, api, {}, "proto"))
+    if model.functions and (opts or {}).get("inline") is not False and api in ("optimize", "optimize_ir"):
+        # optimize() inlines model-local functions first: attribute on the inlined model
+        try:
+            from onnxscript import ir, optimizer
+            mir = ir.serde.deserialize_model(model)
+            optimizer.inline(mir)
+            model = ir.serde.serialize_model(mir)
+        except Exception:  # noqa: BLE001
+            pass
+    base = model
     if api not in ("rewrite", "remove_unused_nodes"):
         si = (opts or {}).get("onnx_shape_inference")
         m2, bad = attempt(model, "fold_constants", {"onnx_shape_inference": True if si is None else si})
